@@ -66,6 +66,10 @@ def open_edit(l0: int, l1: int, l2: int) -> bool:
     elif EDIT == 'add_fp':
         iso.add_fp(fp, l0, **fkw(c, 'NEW'))
         expect['/NEW.;1'] = l0
+    elif EDIT == 'add_long':
+        kw = fkw(c, 'NEWLONG', rrname='newlong' + 'n' * 190)
+        iso.add_fp(fp, l0, **kw)
+        expect['/NEWLONG.;1'] = l0
     elif EDIT == 'add_udf_link':
         iso.add_hard_link(iso_old_path='/AAA.;1', udf_new_path='/dir1/alnk')
     elif EDIT == 'rm_dir':
@@ -179,7 +183,7 @@ def obligations(tier):
     F = ['PyCdlib.open_fp', 'PyCdlib._walk_directories', 'PyCdlib._walk_udf_directories', 'PyCdlib.rm_file', 'PyCdlib.rm_hard_link', 'PyCdlib.add_fp',
          'PyCdlib.add_hard_link', 'PyCdlib.rm_directory', 'PyCdlib._rm_dr_link', 'PyCdlib._rm_udf_link', 'PyCdlib._rm_file_inodes', 'Inode.parse', 'PyCdlib.write_fp']
     for c in plain:
-        for ed in (['rm_file', 'add_fp'] if quick else ['rm_file', 'rm_link', 'add_fp', 'rm_dir']):
+        for ed in ((['rm_file', 'add_fp'] if quick else ['rm_file', 'rm_link', 'add_fp', 'rm_dir']) + (['add_long'] if c['rr'] else [])):
             params = {'cfg': c, 'edit': ed}
             b = '3 lengths in [0,6144]'
             if quick:
